@@ -38,7 +38,7 @@ META = {
     "design_ref": "DESIGN.md §3 C05",
     "engines": ["crash", "refmodel", "storage_exec", "histgen"],
 }
-REQUIRED = ("short_writes_at_a_4096_block_boundary", "crash_points_executed", "crash_points_reached", "inflight_applied", "inflight_absent", "continuation_writes_verified", "crashes_holding_the_lock", "short_writes",
+REQUIRED = ("short_writes_by_the_os_without_death", "short_writes_at_a_4096_block_boundary", "crash_points_executed", "crash_points_reached", "inflight_applied", "inflight_absent", "continuation_writes_verified", "crashes_holding_the_lock", "short_writes",
             "kills_at_pwrite64")
 SHARDS = {"quick": 14, "thorough": 16}
 WATCHDOG_S = {"quick": 1500, "thorough": 6 * 3600}
@@ -332,6 +332,8 @@ def plan_points(ctx: Ctx, rng, steps: list) -> list[tuple]:
             for blk in range(4096, size + 2, 4096):
                 cuts |= {blk - 1, blk, blk + 1}
             pts += [(k, "cut", c) for c in sorted(c for c in cuts if 0 < c < size)]
+            # the OS accepts only part of the record (file-size limit / full disk) and the writer process SURVIVES the call
+            pts += [(k, "fsize", c) for c in sorted({1, size // 2, size - 1}) if 0 < c < size]
     return pts
 
 
@@ -380,6 +382,8 @@ def run(ctx: Ctx) -> None:
             else:
                 ctx.inconclusive_because(f"writer child failed unexpectedly rc={res['rc']}: {res['err']}")
                 continue
+            if phase == "fsize":
+                ctx.count("short_writes_by_the_os_without_death")
             if phase == "cut":
                 ctx.count("short_writes")
                 if cut >= 4095 and (cut + 1) % 4096 <= 2:
@@ -391,7 +395,7 @@ def run(ctx: Ctx) -> None:
             case = {"flavour": kind, "script": si, "crash_at_step": k, "primitive": names.get(k), "phase": phase, "cut_after_bytes": cut, "seed": ctx.seed,
                     "ops": [[o[0]] + [x if not (isinstance(x, dict) and "dists" in x) else {"template_state": x["state"]} for x in o[1:]] for o in ops]}
             ctx.case(case, res["rc"] == 137 and inflight)
-            facts = {"flavour": kind, "primitive": names.get(k), "phase": phase, "crashed_holding_lock": bool(lock_held), "torn_record": phase == "cut"}
+            facts = {"flavour": kind, "primitive": names.get(k), "phase": phase, "crashed_holding_lock": bool(lock_held), "torn_record": phase in ("cut", "fsize")}
             recover_and_judge(ctx, sc, ops, exps, ids, res, rng, facts, case)
         finally:
             sc.close()
